@@ -182,10 +182,71 @@ class Gen:
                 self.call(ind, scope)
             elif r < 0.95:
                 self.arith(scope, ind)
-            elif r < 0.985:
+            elif r < 0.975:
                 self.nested_use(ind, scope)
+            elif r < 0.99 and depth < self.max_depth:
+                self.quiet_loop(ind, scope, depth)
             else:
                 self.testop(ind, scope)
+
+    def quiet_loop(self, ind, scope, depth):
+        """A loop that configures nothing itself but may reconfigure behind the compiler's back in ONE arm of a conditional
+        (the other arm, or both at a deeper level, stay clean): whatever was known before the loop must be forgotten after it, and
+        only executions that take the clobbering arm can tell."""
+        rng = self.rng
+        scope["states"].clear()
+        li = len(self.loops)
+        nm = f"%ub{li}"
+        self.args.append(ArgSpec(nm, "index", "ub", li))
+        self.loops.append(LoopSpec(li, ("const", 0), ("arg", nm), ("const", 1), depth))
+        lo, st = self.fresh("c"), self.fresh("c")
+        self.emit(ind, f"{lo} = arith.constant 0 : index")
+        self.emit(ind, f"{st} = arith.constant 1 : index")
+        iv = self.fresh("iv")
+        self.ifs += 1
+        c = f"%cond{self.ifs}"
+        self.args.append(ArgSpec(c, "i1", "cond"))
+        arm = rng.choice(["else", "else", "then"])
+        deep = rng.random() < 0.3
+        self.emit(ind, f"scf.for {iv} = {lo} to {nm} step {st} {{")
+        self.emit(ind + 1, f"scf.if {c} {{")
+        inner = {"i32": list(scope["i32"]), "index": list(scope["index"]) + [iv], "states": {}}
+
+        def clobber(i2):
+            if deep:
+                self.ifs += 1
+                c2 = f"%cond{self.ifs}"
+                self.args.append(ArgSpec(c2, "i1", "cond"))
+                self.emit(i2, f"scf.if {c2} {{")
+                self.emit(i2 + 1, "scf.yield")
+                self.emit(i2, "} else {")
+                self.forced_call(i2 + 1, inner)
+                self.emit(i2 + 1, "scf.yield")
+                self.emit(i2, "}")
+            else:
+                self.forced_call(i2, inner)
+
+        if arm == "then":
+            clobber(ind + 2)
+        self.emit(ind + 2, "scf.yield")
+        self.emit(ind + 1, "} else {")
+        if arm == "else":
+            clobber(ind + 2)
+        self.emit(ind + 2, "scf.yield")
+        self.emit(ind + 1, "}")
+        self.emit(ind + 1, "scf.yield")
+        self.emit(ind, "}")
+        self.features.add("quiet-loop-clobbering-in-" + arm + ("-nested" if deep else ""))
+        self.skel.append("Q")
+        # something must depend on the registers afterwards
+        self.launch(ind, scope)
+
+    def forced_call(self, ind, scope):
+        self.calls += 1
+        self.clobbering_calls += 1
+        self.decl_needed.add("@ext0(i32) -> ()")
+        self.emit(ind, f'func.call @ext0({self.rng.choice(scope["i32"])}) {{verif.id = "{self.new_vid()}"}} : (i32) -> ()')
+        self.features.add("call-unannotated")
 
     def nested_use(self, ind, scope):
         """A configuration value that reaches its setup only through the region of a pure conditional:
